@@ -32,6 +32,12 @@ starting before 0 and holding exactly 0.0 at an interior level (every interior i
 negative - uniform and non-uniform, crossed with the time dependent forms, both methods, observation times and grid relations; the oracle
 is the unchanged Euler loop with operator and source assembled at the step's own time (t = 0.0 is a time like any other).
 
+Operator symmetry facet: every steady and time dependent form is also assembled with a NON-symmetric operator - the form's own (symmetric,
+diffusion / reaction) operator plus an upwind advection stencil (lower bidiagonal) or plus a one-sided boundary row (one off-diagonal
+entry), time dependent coefficient for the time dependent forms - crossed with the linear solvers that accept such operators (dense, sparse,
+gmres), both stepping methods, uniform / non-uniform time grids, observation times and grid relations; oracle unchanged (A u = b residual and
+dense solve; the Euler loops with A(t) applied from the LEFT to the previous level; gradient against Richardson / the harness Jacobian).
+
 Process history facet (_c18_hist): the object under test lives next to SIBLINGS of the same dimension that differ in one option (shipped
 models: endpoint / source / max_time / field; generic PDE objects: grids, solver, map, form, method, time grid) built and used before and
 after it, in both construction orders; every evaluation of every object must equal an independent dense reference (for the shipped models
@@ -88,6 +94,12 @@ RULE = ("cells = {steady: form x solver x grid relation x observation map x mode
         "oracle unchanged (level 0 = PDE_form(x, t_0)[2], every stored level satisfies the recurrence with operator / source assembled at the "
         "step's own time, observation, PDEModel.forward / gradient); a failure the same cell shows with the form's own initial time as well "
         "keeps its ordinary signature, otherwise time=zero-inside / ends-at-zero / positive / negative is appended to the signature facet.  "
+        "Operator symmetry facet: operator {symmetric (all cells above), form's operator + upwind advection stencil, form's operator + one-sided "
+        "boundary row} x {steady: 3 forms x solvers {default, numpy, scipy-kwargs, spsolve (csr operator), gmres} x {equal, offnode} (+ mapped "
+        "domain geometry x 3 gradient hooks); time dependent: 3 forms x {uniform, non-uniform} x K x 2 methods x time_obs x {equal, offnode} "
+        "(+ backward Euler x solvers {numpy, scipy-kwargs, gmres, csr operator}, forward Euler x csr operator)}; oracle unchanged; a failure the "
+        "same cell shows with the form's own symmetric operator as well keeps its ordinary signature, otherwise op=non-symmetric is appended "
+        "to the signature facet.  "
         "Process history facet: target T {Poisson1D dim {6,9}, Heat1D dim {5,8}} x field {None, Step, KL} x observation_grid_map {None, "
         "subset} x sibling option {endpoint, source | max_time, field} and {SteadyStateLinearPDE: 3 forms x {equal, offnode} x sibling option "
         "{grids (+ placement), solver, map, form}; TimeDependentLinearPDE: 3 forms x 2 methods x {equal, offnode} x sibling option {grids, "
@@ -115,13 +127,17 @@ BOUND = {
              "Samples with 1, 2 and par_dim (3 or 5) columns; shipped: 7 containers x 4 fields x 2 observation_grid_maps x Poisson1D dim {6,9} / "
              "Heat1D dim {5,8}.  Time-grid position cells: 3 forms (N=5) x {uniform, non-uniform} x K in {2,3,4} x {zero at every interior "
              "level, ends at zero, positive (first level 2^-5), negative (last level -2^-5)} x 2 methods x 4 time_obs x {equal, offnode} (1440 "
-             "cells).  Process history cells: 144 shipped (2 problems x 2 dims x 3 fields x 2 obs maps x 3 sibling options x 2 orders) + 48 "
+             "cells).  Operator symmetry cells: 2 non-symmetric terms x {steady (N=6): 3 forms x 5 solvers x {equal, offnode} + 3 forms x 3 gradient "
+             "hooks (78 cells); time dependent (N=5): 3 forms x {uniform, non-uniform} x K in {2,3,4} x 2 methods x {final, all, off-nodes} x "
+             "{equal, offnode} + 3 forms x (4 backward-Euler solvers + forward Euler on a csr operator) x {final, all} on the non-uniform K=3 "
+             "grid (492 cells)}.  Process history cells: 144 shipped (2 problems x 2 dims x 3 fields x 2 obs maps x 3 sibling options x 2 orders) + 48 "
              "steady (N=6) + 144 time dependent (N=5, non-uniform K=3), 3 objects and 6 evaluations x 2 parameter points x 2 routes per cell",
     "thorough": "as quick with K in 2..6, N in {5,7} for the time-dependent forms, N in {6,9} steady, and all 3 value catalogues in one run; "
                 "representation cells also on the uniform K=3 grid, plus (first catalogue) the complete product 5 x 6 x 6 x 8 of "
                 "(parameter, initial condition, source, operator) representations x 2 methods x {final, all} x {equal, offnode}; "
                 "location / scale cells with N in {6,9} x all 3 maps (steady), N in {5,7} x 3 forms x {non-uniform K=3, uniform K=4} x all 6 "
-                "time_obs (time dependent); time origin in {2^10, 2^20} x 3 forms; container cells with N in {5,7} and both stepping methods "
+                "time_obs (time dependent); time origin in {2^10, 2^20} x 3 forms; operator symmetry cells with N in {6,9} x maps {none, square} "
+                "(steady), N in {5,7} x K in 2..6 x all 6 time_obs (time dependent); container cells with N in {5,7} and both stepping methods "
                 "for both time dependent PDEs (6 PDEs); time-grid position cells with K in 2..6 and N in {5,7}; process history cells as quick "
                 "for each of the 3 value catalogues",
 }
@@ -161,6 +177,11 @@ ASSUMPTIONS = [
     "time-grid position: level values are sums / differences of the steps 0.008 (uniform: 0.008 * integers) or {0.004, 0.010, 0.002, ...}; "
     "'exactly 0.0' is +0.0 (the negative zero, sub-normal levels and grids longer than 0.05 are not covered); decreasing time grids are "
     "not covered",
+    "operator symmetry: the non-symmetric operators are the form's symmetric operator plus c * (upwind first-difference stencil / dx) or "
+    "plus one enlarged super-diagonal entry in the first row (0.5 / dx^2), c = 1 (steady) or 1 + 8 t (time dependent); all of them are "
+    "non-singular (diagonally dominant) and K <= 6 steps stay O(1); the conjugate-gradient solver is not crossed with them (it is for "
+    "symmetric systems); complex, singular and non-square operators are not covered; the container / process-history / shipped-model cells "
+    "keep symmetric operators",
     "process history: siblings are constructed in the same process (the cell), sequentially; what the worker process constructed in "
     "earlier cells is not controlled and the verdict is chosen not to depend on it; concurrency (threads), pickling / copying of models and "
     "siblings of ANOTHER dimension are not covered.  Shipped models: the independent reference is the discretisation of the test problem - "
@@ -187,6 +208,12 @@ PLACE_TIME_OBS = ["final", "all", "on-nodes", "off-nodes"]
 # three forms, 2^-4 for 'ic-time'); 'cross0' is crossed with every interior index at which the grid holds exactly 0.0
 TIME_POS = ["cross0", "end0", "positive", "negative"]
 TIME_POS_FACET = {"cross0": "time=zero-inside", "end0": "time=ends-at-zero", "positive": "time=positive", "negative": "time=negative"}
+# operator symmetry facet: the forms above assemble SYMMETRIC operators (diffusion stencils, diagonal reaction terms); here the same forms
+# carry an additional non-symmetric term - an upwind advection stencil (lower bidiagonal, every row) or a one-sided (ghost node) boundary
+# row (ONE off-diagonal entry) - with a coefficient that depends on the time for the time dependent forms
+OP_SYM = ["upwind", "boundary-row"]
+OPSYM_SOLVERS_STEADY = ["default", "numpy", "scipy-kwargs", "spsolve", "gmres-tuple"]       # (cg is for symmetric operators only)
+OPSYM_SOLVERS_TD = ["numpy", "scipy-kwargs", "gmres-tuple", "sparse-op"]
 
 
 # ----------------------------------------------------------------------------------------
@@ -316,6 +343,34 @@ def cells(tier, seed):
                                         out.append({"kind": "timedep", "form": form, "N": N, "tgrid": tg, "K": K, "method": method,
                                                     "time_obs": tobs, "grids": rel, "map": "none", "solver": "default",
                                                     "tpos": tpos, "tzero": m, "cat": k})
+        # operator symmetry facet: every form with a non-symmetric operator (upwind advection term / one-sided boundary row)
+        for opsym in OP_SYM:
+            for N in ((6,) if q else (6, 9)):
+                for form in STEADY_FORMS:
+                    for solver in OPSYM_SOLVERS_STEADY:
+                        for rel in ("equal", "offnode"):
+                            for mp in (("none",) if q else ("none", "square")):
+                                out.append({"kind": "steady", "form": form, "N": N, "solver": solver, "grids": rel, "map": mp,
+                                            "geom": "int", "hook": "none", "opsym": opsym, "cat": k})
+                    for hook in ("none", "jacobian", "gradient"):
+                        out.append({"kind": "steady", "form": form, "N": N, "solver": "default", "grids": "equal", "map": "none",
+                                    "geom": "mapped", "hook": hook, "opsym": opsym, "cat": k})
+            for N in ((5,) if q else (5, 7)):
+                for form in TD_FORMS:
+                    for tg in ("uniform", "nonuniform"):
+                        for K in ((2, 3, 4) if q else (2, 3, 4, 5, 6)):
+                            for method in ("forward_euler", "backward_euler"):
+                                for tobs in (("final", "all", "off-nodes") if q else [t for t in TIME_OBS if t != "FINAL"]):
+                                    for rel in ("equal", "offnode"):
+                                        out.append({"kind": "timedep", "form": form, "N": N, "tgrid": tg, "K": K, "method": method,
+                                                    "time_obs": tobs, "grids": rel, "map": "none", "solver": "default",
+                                                    "opsym": opsym, "cat": k})
+                    for solver in OPSYM_SOLVERS_TD:
+                        for method in (("forward_euler", "backward_euler") if solver == "sparse-op" else ("backward_euler",)):
+                            for tobs in ("final", "all"):
+                                out.append({"kind": "timedep", "form": form, "N": N, "tgrid": "nonuniform", "K": 3, "method": method,
+                                            "time_obs": tobs, "grids": "equal", "map": "none", "solver": solver,
+                                            "opsym": opsym, "cat": k})
         # process history facet: siblings of the same dimension built and used around the object under test (shipped and generic)
         out += H.cells(q, k)
         # E1 add-on: grid / observation-time re-assignment histories on ONE live PDE object (non-initial states)
@@ -380,11 +435,33 @@ def _lap(N, dx):
     return (np.diag(-2.0 * np.ones(N)) + np.diag(np.ones(N - 1), 1) + np.diag(np.ones(N - 1), -1)) / dx ** 2
 
 
-def _steady_form(name, N, k, sparse=False):
+def _nonsym(opsym, N, dx):
+    """the non-symmetric part added to a NEGATIVE definite (diffusion like) operator; None: no such part (symmetric operator)"""
+    if opsym is None:
+        return None
+    if opsym == "upwind":           # - d/dx by the upwind (backward) difference: lower bidiagonal, every row non-symmetric
+        return -(np.eye(N) - np.diag(np.ones(N - 1), -1)) / dx
+    if opsym == "boundary-row":     # one-sided (ghost node) boundary row: the first row's super-diagonal entry is enlarged
+        E = np.zeros((N, N))
+        E[0, 1] = 0.5 / dx ** 2
+        return E
+    raise ValueError(opsym)
+
+
+def _op_facet(cell):
+    return "op=non-symmetric" if cell.get("opsym") else ""
+
+
+def _steady_form(name, N, k, sparse=False, opsym=None):
     """returns (PDE_form, parameter points [x1, x2], param_dim)"""
     import scipy.sparse as sp
     g, dx = _grid(N)
-    wrap = (lambda A: sp.csr_matrix(A)) if sparse else (lambda A: A)
+    S = _nonsym(opsym, N, dx)
+    if S is None:
+        wrap = (lambda A: sp.csr_matrix(A)) if sparse else (lambda A: A)
+    else:           # the steady operators are positive definite (- Laplacian like): subtract the non-symmetric part
+        assert not np.allclose(S, S.T)
+        wrap = (lambda A: sp.csr_matrix(A - S)) if sparse else (lambda A: A - S)
     if name == "poisson":          # parameter (conductivity on N+1 cell faces) enters the operator
         Dx = np.zeros((N + 1, N))
         for i in range(N + 1):
@@ -609,6 +686,7 @@ class _Attribution:
                 c2.pop("tplace", None)
                 c2.pop("tpos", None)
                 c2.pop("tzero", None)
+                c2.pop("opsym", None)
                 r2 = CellResult(c2)
                 try:
                     (_eval_timedep if c2["kind"] == "timedep" else _eval_steady)(c2, r2)
@@ -647,7 +725,7 @@ def _eval_steady(cell, res):
         form, xs, pdim = R.steady_form_repr(N, k, reps)
         rfac = "," + R.repr_facet(reps, ("param", "rhs", "op"))
     else:
-        form, xs, pdim = _steady_form(cell["form"], N, k, sparse=sparse_op)
+        form, xs, pdim = _steady_form(cell["form"], N, k, sparse=sparse_op, opsym=cell.get("opsym"))
         rfac = ""
         if prep is not None:
             xs = [R.cast(R.small_int(x), prep) for x in xs]
@@ -663,7 +741,7 @@ def _eval_steady(cell, res):
     facet = "solver=%s" % cell["solver"]
     once = _Once(res)
     rec = R.Recorder(form, ("operator", "rhs"))
-    sg = _Attribution(cell, rfac[1:], P.facet(cell))
+    sg = _Attribution(cell, rfac[1:], ",".join(f for f in (P.facet(cell), _op_facet(cell)) if f))
 
     def intact(stage):
         bad = rec.altered()
@@ -723,7 +801,7 @@ def _eval_steady(cell, res):
         A_raw, b_raw = form(xf)
         A_ref, b_ref = _dense(A_raw), np.asarray(b_raw, float)
         u_ref = np.linalg.solve(A_ref, b_ref)
-        res.state("%s:x%d" % (cell["form"], step) + rfac)
+        res.state("%s:x%d" % (cell["form"], step) + rfac + (",op=%s" % cell["opsym"] if cell.get("opsym") else ""))
         # ---- assemble + solve -------------------------------------------------------------
         if spy is not None:
             spy.calls.clear()
@@ -908,10 +986,20 @@ def _tpos_facet(cell):
     return TIME_POS_FACET.get(cell.get("tpos"), "")
 
 
-def _td_form(name, N, k, sparse=False):
+def _td_form(name, N, k, sparse=False, opsym=None):
     import scipy.sparse as sp
     g, dx = _grid(N)
     Dxx = _lap(N, dx)
+    if opsym is not None:           # operator symmetry facet: the same form with the non-symmetric term c(t) * S added to the operator
+        form0, xs, pdim, t0 = _td_form(name, N, k)
+        S = _nonsym(opsym, N, dx)
+        assert not np.allclose(S, S.T)
+
+        def form_ns(x, t):
+            A, f, u0 = form0(x, t)
+            A = A + (1.0 + 8.0 * t) * S
+            return (sp.csr_matrix(A) if sparse else A), f, u0
+        return form_ns, xs, pdim, t0
     wrap = (lambda A: sp.csr_matrix(A)) if sparse else (lambda A: A)
     s1 = np.sin(np.pi * g)
     s2 = g * (1 - g)
@@ -982,7 +1070,7 @@ def _eval_timedep(cell, res):
         form, xs, pdim, t0 = R.td_form_repr(N, k, reps)
         rfac = "," + R.repr_facet(reps, ("param", "ic", "source", "op"))
     else:
-        form, xs, pdim, t0 = _td_form(cell["form"], N, k, sparse=sparse_op)
+        form, xs, pdim, t0 = _td_form(cell["form"], N, k, sparse=sparse_op, opsym=cell.get("opsym"))
         rfac = ""
         if prep is not None:
             xs = [R.cast(R.small_int(x), prep) for x in xs]
@@ -998,7 +1086,7 @@ def _eval_timedep(cell, res):
     rtol_fwd = max(tol, 1e-9)
     spy = _Spy(fn) if fn is not None else None
     rec = R.Recorder(form, ("operator", "source", "initial_condition"))
-    sg = _Attribution(cell, rfac[1:], ",".join(f for f in (P.facet(cell), _tpos_facet(cell)) if f))
+    sg = _Attribution(cell, rfac[1:], ",".join(f for f in (P.facet(cell), _tpos_facet(cell), _op_facet(cell)) if f))
     mp = _map(cell["map"])
     gx = P.place_grid(g, cell)          # the grids handed to the library: the unit grid translated / scaled (location / scale facet)
     ptol = P.place_tol(gx, times)       # rounding of far-away coordinates relative to one cell / step (interpolated values only)
@@ -1035,7 +1123,8 @@ def _eval_timedep(cell, res):
     # (representation cells: the stale-state sequence x1,x2,x1 is the business of the float cells; two points suffice)
     for step, x in enumerate([xs[0], xs[1], xs[0]] if reps is None else [xs[0], xs[1]]):
         U_ref = _euler_ref(form, x, times, method)
-        res.state("%s:%s:x%d" % (cell["form"], method, step) + rfac + ("," + _tpos_facet(cell) if _tpos_facet(cell) else ""))
+        res.state("%s:%s:x%d" % (cell["form"], method, step) + rfac + ("," + _tpos_facet(cell) if _tpos_facet(cell) else "")
+                  + (",op=%s" % cell["opsym"] if cell.get("opsym") else ""))
         if spy is not None:
             spy.calls.clear()
         res.transitions += K
